@@ -11,7 +11,11 @@
 //	          (computed by the harness, not by merkle.HashLeaf); mutants that still prove a
 //	          member (e.g. ignored trailing bytes) are counted, not flagged;
 //	          a path never proves anything against a root with a flipped bit;
-//	no panic on any input.
+//	          the genuine steps of a member behind a value altered in any region (regions.go: head, tail, hash
+//	          block borders, power-of-two offsets, segments; tail cut/grown/replaced), for members of every
+//	          length class up to several KiB, prove nothing that is not in the list;
+//	no panic on any input; a panic that escapes the per-call guards in a worker is itself recorded as a
+//	violation (exit 1), it never crashes the monitor (a Go crash exits 2, which would read as inconclusive).
 package main
 
 import (
@@ -52,9 +56,8 @@ func posClass(i, n int) string {
 	return "inner"
 }
 
-func varBytes(v []byte) []byte {
+func varIntPrefix(n uint64) []byte {
 	var out []byte
-	n := uint64(len(v))
 	switch {
 	case n < 0xfd:
 		out = []byte{byte(n)}
@@ -67,8 +70,10 @@ func varBytes(v []byte) []byte {
 		out = []byte{0xff, 0, 0, 0, 0, 0, 0, 0, 0}
 		binary.LittleEndian.PutUint64(out[1:], n)
 	}
-	return append(out, v...)
+	return out
 }
+
+func varBytes(v []byte) []byte { return append(varIntPrefix(uint64(len(v))), v...) }
 
 type list struct {
 	id     string
@@ -101,14 +106,14 @@ func genValue(g *vf.RNG, profile, i int) []byte {
 }
 
 func buildList(r *vf.Run, g *vf.RNG, n, profile int, id string, dups bool) *list {
-	l := &list{id: id, member: map[rfc6962.Hash]bool{}}
 	seen := map[string]bool{}
+	var values [][]byte
 	for i := 0; i < n; i++ {
 		var v []byte
 		for tries := 0; ; tries++ {
 			v = genValue(g, profile, i)
 			if dups && i > 0 && i%3 == 2 {
-				v = append([]byte{}, l.values[g.Intn(i)]...)
+				v = append([]byte{}, values[g.Intn(i)]...)
 				break
 			}
 			if !seen[string(v)] {
@@ -119,17 +124,34 @@ func buildList(r *vf.Run, g *vf.RNG, n, profile int, id string, dups bool) *list
 			}
 		}
 		seen[string(v)] = true
-		l.values = append(l.values, v)
-		l.hashes = append(l.hashes, merkle.HashLeaf(v))
+		values = append(values, v)
+	}
+	return listOf(r, id, values)
+}
+
+// listOf builds the production view (merkle.HashLeaf, HashFullTreeWithLeafHash) and the harness' reference view of
+// a list of values.  It returns nil when the production code panicked (reported as a violation).
+func listOf(r *vf.Run, id string, values [][]byte) *list {
+	n := len(values)
+	l := &list{id: id, values: values, member: map[rfc6962.Hash]bool{}}
+	for _, v := range values {
 		lh := rfc6962.LeafHash(v)
 		l.refLH = append(l.refLH, lh)
 		l.member[lh] = true
 	}
 	l.ref = rfc6962.New(l.refLH)
-	l.root = merkle.TreeHasher{}.HashFullTreeWithLeafHash(l.hashes)
+	if p := vf.Catch(func() {
+		for _, v := range values {
+			l.hashes = append(l.hashes, merkle.HashLeaf(v))
+		}
+		l.root = merkle.TreeHasher{}.HashFullTreeWithLeafHash(l.hashes)
+	}); p != nil {
+		r.Violation("panic:build-list:"+sizeClass(n), fmt.Sprint(p), l.witness(nil))
+		return nil
+	}
 	for i := range l.hashes {
 		if rfc6962.Hash(l.hashes[i]) != l.refLH[i] {
-			r.Violation("leafhash:differs-from-rfc", "merkle.HashLeaf(v) is not SHA-256(0x00||v)", map[string]interface{}{"value": vf.Hex(l.values[i])})
+			r.Violation("leafhash:differs-from-rfc:"+lenClass(len(values[i])), "merkle.HashLeaf(v) is not SHA-256(0x00||v)", map[string]interface{}{"value": vf.Hex(l.values[i])})
 			break
 		}
 	}
@@ -137,6 +159,13 @@ func buildList(r *vf.Run, g *vf.RNG, n, profile int, id string, dups bool) *list
 		r.Violation("root:fulltree-differs-from-rfc:"+sizeClass(n), "HashFullTreeWithLeafHash differs from the RFC 6962 head of the leaf hashes", l.witness(nil))
 	}
 	return l
+}
+
+// withChanged is the list l with value k replaced.
+func (l *list) withChanged(r *vf.Run, id string, k int, nv []byte) *list {
+	values := append([][]byte{}, l.values...)
+	values[k] = nv
+	return listOf(r, id, values)
 }
 
 func (l *list) witness(extra map[string]interface{}) map[string]interface{} {
@@ -288,15 +317,25 @@ func (c *checker) memberCase(l *list, i int, g *vf.RNG, others []*list) {
 	for _, k := range idxs {
 		c.negative(l, mut(func(p []byte) []byte { p[hdr+k] ^= 1 << uint(g.Intn(8)); return p }), "value-flip", base)
 	}
-	// the declared length moves the border between value and steps
-	if hdr == 1 {
-		for _, d := range []int{-1, 1, 33, -33} {
-			nl := len(v) + d
-			if nl >= 0 && nl < 0xfd {
-				c.negative(l, mut(func(p []byte) []byte { p[0] = byte(nl); return p }), "value-length", base)
-			}
+	// the declared length moves the border between value and steps (any header width; the body stays as it is)
+	for _, d := range []int{-1, 1, 33, -33} {
+		if nl := len(v) + d; nl >= 0 {
+			c.negative(l, append(varIntPrefix(uint64(nl)), path[hdr:]...), "value-length", base)
 		}
 	}
+	// the same length in a wider (non-canonical) encoding
+	for _, w := range [][]byte{{0xfd, 0, 0}, {0xfe, 0, 0, 0, 0}, {0xff, 0, 0, 0, 0, 0, 0, 0, 0}} {
+		if len(w) > hdr {
+			enc := append([]byte{}, w...)
+			for k, L := 1, uint64(len(v)); k < len(enc); k, L = k+1, L>>8 {
+				enc[k] = byte(L)
+			}
+			c.negative(l, append(enc, path[hdr:]...), "value-length-wide-encoding", base)
+		}
+	}
+	// every region of the value: head, tail, hash-block borders, power-of-two borders, one offset per segment;
+	// the tail replaced, cut off, grown; blocks swapped
+	c.valueRegions(l, v, path[prefix:], g.Sub(0x7e610), base)
 	// a different value in front of the same steps
 	for k := 0; k < 2; k++ {
 		other := g.Bytes(len(v) + k)
@@ -318,12 +357,21 @@ func (c *checker) memberCase(l *list, i int, g *vf.RNG, others []*list) {
 			var sib H
 			copy(sib[:], path[prefix+33*k+1:])
 			var pre []byte
-			if path[prefix+33*k] != merkle.LEFT {
+			left := path[prefix+33*k] == merkle.LEFT
+			if !left {
 				pre = append(append([]byte{}, cur[:]...), sib[:]...)
-				cur = merkle.HashChildren(cur, sib)
 			} else {
 				pre = append(append([]byte{}, sib[:]...), cur[:]...)
-				cur = merkle.HashChildren(sib, cur)
+			}
+			if p := vf.Catch(func() {
+				if !left {
+					cur = merkle.HashChildren(cur, sib)
+				} else {
+					cur = merkle.HashChildren(sib, cur)
+				}
+			}); p != nil {
+				r.Violation("panic:HashChildren", fmt.Sprint(p), wit())
+				break
 			}
 			c.negative(l, append(varBytes(pre), path[prefix+33*(k+1):]...), "interior-node-preimage", base)
 			// and with the node-hash prefix byte written out (in case the value were hashed without a prefix)
@@ -378,7 +426,11 @@ func (c *checker) memberCase(l *list, i int, g *vf.RNG, others []*list) {
 		}
 		if len(o.values) > 0 {
 			j := g.Intn(len(o.values))
-			if op, err := merkle.MerkleLeafPath(o.values[j], o.hashes); err == nil {
+			var op []byte
+			var err error
+			if p := vf.Catch(func() { op, err = merkle.MerkleLeafPath(o.values[j], o.hashes) }); p != nil {
+				r.Violation("panic:MerkleLeafPath:"+sizeClass(len(o.values)), fmt.Sprint(p), o.witness(map[string]interface{}{"member_index": j}))
+			} else if err == nil {
 				c.negative(l, op, "other-list-path", map[string]interface{}{"member_index": i, "other_list": o.id, "other_member": j})
 			}
 		}
@@ -457,7 +509,7 @@ func (c *checker) arbitrary(l *list, g *vf.RNG, count int) {
 
 func main() {
 	r := vf.NewRun("C27", "exploration",
-		"lists of n values for every n in 1..N, three value-length profiles per n (record-sized, boundary lengths 0/1/31..33/63..65/252..254/300, short) plus lists with repeated values; every member of every list is a positive case (distinct by list id and index); every positive case spawns the mutation families value-flip, value-length, value-replaced, interior-node-preimage, flag flip/other byte, sibling flip, step drop/dup/swap, truncate and extend by 1..70 bytes, foreign step appended, other list's root/path, root bit flip; plus seeded arbitrary byte strings")
+		"lists of n values for every n in 1..N, three value-length profiles per n (record-sized, boundary lengths 0/1/31..33/63..65/252..254/300, short) plus lists with repeated values; every member of every list is a positive case (distinct by list id and index); every positive case spawns the mutation families value-flip, value-length, value-replaced, interior-node-preimage, flag flip/other byte, sibling flip, step drop/dup/swap, truncate and extend by 1..70 bytes, foreign step appended, other list's root/path, root bit flip; value-region family behind the genuine steps (one bit flipped in the first and last 72 bytes, at the borders of the 64-byte hash blocks, at power-of-two offsets and once in each of 32 segments; tail replaced, zeroed, cut, grown; head grown; chunks swapped/repeated; wider length encodings); lists whose members run through the length classes 0,1,31..33,55,56,63..65,119,120,127..129,252..257,511..513,1000,1023..1025,1500,2047..2049,3000,4095..4097,5000,8191..8193,10000,65535..65537 (thorough: up to 262144) at seeded positions of lists of 1..16 values; plus seeded arbitrary byte strings")
 	rng := vf.NewRNG(vf.Seed())
 	N := vf.N(33, 257)
 	profiles := 3
@@ -479,43 +531,53 @@ func main() {
 			tasks = append(tasks, task{n, 2, true})
 		}
 	}
+	// guarded: a panic of the code under test that escapes the per-call guards is a violation of its own, never
+	// a crash of the monitor (a crashed Go program exits with status 2, which would read as "inconclusive")
+	guarded := func(what string, f func()) {
+		if p := vf.Catch(f); p != nil {
+			r.Violation("panic:escaped:"+what, fmt.Sprint(p), map[string]interface{}{"task": what})
+		}
+	}
 	vf.Parallel(len(tasks), runtime.NumCPU(), func(ti int) {
 		t := tasks[ti]
-		g := rng.Sub(uint64(ti) + 1)
-		id := fmt.Sprintf("n%d-p%d", t.n, t.profile)
-		if t.dups {
-			id += "-dups"
-		}
-		l := buildList(r, g.Sub(1), t.n, t.profile, id, t.dups)
-		if t.dups {
-			r.Count("lists_with_repeated_values")
-		}
-		// two other lists: same size with other values, and a list sharing all but one value
-		o1 := buildList(r, g.Sub(2), t.n, t.profile, id+"-other", false)
-		o2 := &list{}
-		*o2 = *l
-		o2.id = id + "-one-changed"
-		o2.values = append([][]byte{}, l.values...)
-		k := g.Intn(t.n)
-		o2.values[k] = append(append([]byte{}, l.values[k]...), 0x77)
-		o2.hashes, o2.refLH, o2.member = nil, nil, map[rfc6962.Hash]bool{}
-		for _, v := range o2.values {
-			o2.hashes = append(o2.hashes, merkle.HashLeaf(v))
-			lh := rfc6962.LeafHash(v)
-			o2.refLH = append(o2.refLH, lh)
-			o2.member[lh] = true
-		}
-		o2.ref = rfc6962.New(o2.refLH)
-		o2.root = merkle.TreeHasher{}.HashFullTreeWithLeafHash(o2.hashes)
-		c.listCase(l, g.Sub(3), []*list{o1, o2})
-		c.arbitrary(l, g.Sub(4), vf.N(40, 1200))
-		if ti < 2 {
-			r.Sample(map[string]interface{}{"list": l.witness(nil), "path_of_member_0": vf.Hex(l.refPath(0))})
-		}
+		guarded("list", func() {
+			g := rng.Sub(uint64(ti) + 1)
+			id := fmt.Sprintf("n%d-p%d", t.n, t.profile)
+			if t.dups {
+				id += "-dups"
+			}
+			l := buildList(r, g.Sub(1), t.n, t.profile, id, t.dups)
+			if l == nil {
+				return
+			}
+			if t.dups {
+				r.Count("lists_with_repeated_values")
+			}
+			// two other lists: same size with other values, and a list sharing all but one value
+			var others []*list
+			if o1 := buildList(r, g.Sub(2), t.n, t.profile, id+"-other", false); o1 != nil {
+				others = append(others, o1)
+			}
+			k := g.Intn(t.n)
+			if o2 := l.withChanged(r, id+"-one-changed", k, append(append([]byte{}, l.values[k]...), 0x77)); o2 != nil {
+				others = append(others, o2)
+			}
+			c.listCase(l, g.Sub(3), others)
+			c.arbitrary(l, g.Sub(4), vf.N(40, 1200))
+			if ti < 2 {
+				r.Sample(map[string]interface{}{"list": l.witness(nil), "path_of_member_0": vf.Hex(l.refPath(0))})
+			}
+		})
+	})
+
+	// lists whose members run through every length class up to several KiB (and the var-int borders at 253 and 65536)
+	lt := longTasks()
+	vf.Parallel(len(lt), runtime.NumCPU(), func(ti int) {
+		guarded("long-value-list", func() { c.longList(lt[ti], rng.Sub(0x10e6).Sub(uint64(ti))) })
 	})
 
 	// the documented size limit of MerkleLeafPath: a path is generated up to MAX_SIZE and it proves
-	{
+	guarded("max-size", func() {
 		g := rng.Sub(0xb16)
 		for _, n := range []int{1, 5} {
 			for _, over := range []int{0, 1} {
@@ -554,16 +616,32 @@ func main() {
 					r.Violation("positive:prove-fails:at-max-size", fmt.Sprintf("path at the size limit does not prove: %v", err), map[string]interface{}{"n": n, "value_len": big})
 				} else {
 					r.Count("max_size_member_proved")
+					// the same path with the last byte of the value altered
+					mp := append([]byte{}, path...)
+					mp[len(varIntPrefix(uint64(big)))+big-1] ^= 0x10
+					r.Evals(1)
+					r.Count("max_size_tail_flip")
+					if fv, err := merkle.MerkleProve(mp, root); err == nil {
+						isMember := false
+						for _, v := range vals {
+							isMember = isMember || rfc6962.LeafHash(v) == rfc6962.LeafHash(fv)
+						}
+						if !isMember {
+							r.Violation("negative:proves-nonmember:value-region-flip:tail:"+lenClass(big), "MerkleProve returned a value whose leaf hash is not in the list, against the list's root", map[string]interface{}{"n": n, "value_len": big, "values": hexAll(vals), "root": vf.Hex(root[:]), "path": vf.Hex(mp)})
+						}
+					}
 				}
 			}
 		}
-	}
+	})
 
 	r.Extra("enumerated_completely", map[string]interface{}{
 		"bound_N":        N,
 		"members":        fmt.Sprintf("every member of every generated list, list sizes 1..%d all present", N),
 		"truncation":     "every truncation and extension length 1..70 for every member path (all remainders mod 32 and mod 33)",
 		"per_step":       "flag flip, flag other byte, sibling flip, drop, duplicate, swap at every step of every member path",
+		"value_regions":  "for every member longer than 40 bytes: each of the first 72 and last 72 bytes, every power of two -2..+1, every 64-byte block border (all when at most 48 blocks), one offset per 1/32 segment; up to 40 bytes: every byte",
+		"length_classes": fmt.Sprint(allLongLens()),
 		"not_exhaustive": "list contents, flipped bit positions, extension bytes (seeded)",
 	})
 	for _, k := range []string{"n=1", "n=2^k", "n=2^k+1", "n=2^k-1", "n=other"} {
@@ -580,6 +658,20 @@ func main() {
 		"flag-flip", "flag-other-byte", "sibling-flip", "step-drop", "step-dup", "step-swap", "truncate", "extend-random", "extend-zero", "extend-step", "other-list-root", "other-list-path", "root-flip", "arbitrary-bytes"} {
 		r.Require("mut_"+f, 100)
 	}
+	for _, f := range []string{"value-length-wide-encoding", "value-region-flip:head", "value-region-flip:tail", "value-region-flip:pow2-border", "value-region-flip:block-border", "value-region-flip:segment",
+		"value-tail-replaced", "value-tail-zeroed", "value-tail-cut", "value-tail-grown", "value-head-grown", "value-chunk-swap", "value-chunk-repeated"} {
+		r.Require("mut_"+f, 30)
+	}
+	r.Require("mut_other-list-changed-member-path", 10)
+	for _, lc := range []string{"len=0", "len<32", "len<=64", "len<253", "len<=1KiB", "len<=4KiB", "len<64KiB", "len>=64KiB"} {
+		r.Require("tailmut_"+lc, 10) // the tail of a value of every length class was altered behind genuine steps
+	}
+	for _, n := range allLongLens() {
+		r.Require(fmt.Sprintf("long_member_len=%d", n), 2)
+	}
+	r.Require("long_lists", 10)
+	r.Require("long_other_list_tail_changed", 10)
+	r.Require("max_size_tail_flip", 2)
 	r.Require("mutant_rejected", 10000)
 	r.Require("mutant_still_proves_a_member", 100) // ignored trailing bytes: shows the oracle's 'still a member' branch is live
 	r.Require("nonmember_gets_no_path", 50)
